@@ -121,11 +121,13 @@ def _ops(case, tmp):
             left, right, line = frames()
             # sjoin needs points on the left
             g = 'pt' if op == 'dask_sjoin' else case.get('geom', 'pt')
-            ddf = dd.from_pandas(left.set_geometry(g), npartitions=npart, sort=False)
-            return {'ddf': ddf, 'right': right}
+            return {'pdf': left.set_geometry(g), 'right': right}
 
         def run(o, tag):
-            ddf = o['ddf']
+            # clients share the pandas frame (the spatialpandas arrays and their lazily built indexes); every caller builds
+            # its own Dask collection: computing ONE dask-expr collection from several threads at once fails inside Dask
+            # itself (KeyError on a lowered graph key), which is not the library's business
+            ddf = dd.from_pandas(o['pdf'], npartitions=npart, sort=False)
             if op == 'dask_cx':
                 return ddf.cx[box[0]:box[2], box[1]:box[3]].compute()
             if op == 'dask_sjoin':
@@ -138,12 +140,12 @@ def _ops(case, tmp):
     elif op in ('to_parquet', 'read_parquet'):
         def prepare():
             left, right, line = frames()
-            ddf = dd.from_pandas(left.set_geometry('pt'), npartitions=npart, sort=False)
-            o = {'ddf': ddf}
+            o = {'pdf': left.set_geometry('pt')}
             if op == 'read_parquet':
                 path = os.path.join(tmp, 'src.parq')
                 if not os.path.exists(path):
-                    ddf.pack_partitions_to_parquet(path, npartitions=case.get('out_partitions', 5), p=10, _retry_args=RA)
+                    dd.from_pandas(o['pdf'], npartitions=npart, sort=False).pack_partitions_to_parquet(
+                        path, npartitions=case.get('out_partitions', 5), p=10, _retry_args=RA)
                 o['path'] = path
             return o
 
@@ -155,7 +157,7 @@ def _ops(case, tmp):
                 return r.reset_index().sort_values(['hilbert_distance', 'id'], kind='stable')
             path = os.path.join(tmp, f'out-{tag}')
             fmt = os.path.join(tmp, 'shared-tmp', '{uuid}', 'p{partition}') if case.get('external') else None
-            o['ddf'].pack_partitions_to_parquet(path, filesystem=fs, npartitions=case.get('out_partitions', 5), p=10,
+            dd.from_pandas(o['pdf'], npartitions=npart, sort=False).pack_partitions_to_parquet(path, filesystem=fs, npartitions=case.get('out_partitions', 5), p=10,
                                                 tempdir_format=fmt, _retry_args=RA)
             listing = sorted((nm, os.path.isdir(os.path.join(path, nm))) for nm in os.listdir(path))
             back = read_parquet_dask(path).compute()
